@@ -113,6 +113,25 @@ def sym_window(c, name='w'):
     c.bitfield_msg.bits = core.symbv(name + '_msg_bits', 256)
 
 
+def havoc_counters(c, skip=('latency',)):
+    """inductive step, taken seriously: every integer counter of the connection and of its statistics object that starts
+    at zero is arbitrary (>= 0) - including counters a later version of the code adds and the harness cannot know by name
+    (a 'consecutive bad datagrams' counter with a threshold, say).  Fields the harness knows are overwritten afterwards."""
+    made = []
+    for obj, tag in ((c.stats, 'stats'), (c, 'conn')):
+        for name in dir(obj):
+            if name.startswith('_') or name in skip:
+                continue
+            try:
+                val = getattr(obj, name)
+            except Exception:
+                continue
+            if type(val) is int and val == 0:
+                setattr(obj, name, symint('%s_%s' % (tag, name), 0, 2 ** 31))
+                made.append((tag, name))
+    return made
+
+
 def snapshot(c):
     """semantic state of a connection (DESIGN §6.0): everything but the statistics counters"""
     return dict(
